@@ -395,6 +395,10 @@ def check_sizing(ctx, f, E, SZ, TAGF, per, pts_enc, pts_wl, WT, WLN):
             r = thresholds.fold(a, var, v)
             if r[0] != 'lit' or not isinstance(r[1], int):
                 raise thresholds.Panics('not a number: %s' % absx.fmt(r)[:40])
+            if r[1] < 0:
+                # the terms are evaluated in the integers; an octet count that comes out negative is a subtraction that wraps (or
+                # panics) in the analysed code's unsigned arithmetic: not decided here
+                raise thresholds.Panics('a negative count: %s = %d at %d' % (absx.fmt(a)[:40], r[1], v))
             n += k * int(r[1])
         return n
     n_rect = 0
@@ -419,24 +423,47 @@ def check_sizing(ctx, f, E, SZ, TAGF, per, pts_enc, pts_wl, WT, WLN):
                 continue
             n_rect += 1
             c, idt, lt = val
-            # a row and a column of the rectangle; the corner is chosen where the other side is already right, so that a wrong
-            # count is attributed to the part (identifier / length) it belongs to
+            # a column and a row of the rectangle; the corner is moved to a point where the other side is right (if there is one),
+            # so that a wrong count is attributed to the part - identifier or length octets - it belongs to
             try:
                 def header(i, l):
                     return c + value(idt, IDVAR, i) + value(lt, LVAR, l)
-                i0, l0 = I_[0], J_[0]
-                for l in J_:
-                    wi, wl_ = written_id(i0), written_len(prim, l)
-                    if not isinstance(wi, int) or not isinstance(wl_, int):
-                        undecided.append('octets written at tag number %d, content length %d: %s' % (i0, l, wi if not isinstance(wi, int) else wl_)); break
-                    if header(i0, l) != wi + wl_:
-                        wrong_len.append((l, header(i0, l) - wi, wl_))
-                for i in I_:
-                    wi, wl_ = written_id(i), written_len(prim, l0)
-                    if not isinstance(wi, int) or not isinstance(wl_, int):
-                        undecided.append('octets written at tag number %d, content length %d: %s' % (i, l0, wi if not isinstance(wi, int) else wl_)); break
-                    if header(i, l0) != wi + wl_:
-                        wrong_id.append((i, header(i, l0) - wl_, wi))
+                def column(i):
+                    bad, good = [], []
+                    for l in J_:
+                        wi, wl_ = written_id(i), written_len(prim, l)
+                        if not isinstance(wi, int) or not isinstance(wl_, int):
+                            undecided.append('octets written at tag number %d, content length %d: %s' % (i, l, wi if not isinstance(wi, int) else wl_))
+                            return None, None
+                        if header(i, l) != wi + wl_:
+                            bad.append((l, header(i, l) - wi, wl_))
+                        else:
+                            good.append(l)
+                    return bad, good
+                def row(l):
+                    bad, good = [], []
+                    for i in I_:
+                        wi, wl_ = written_id(i), written_len(prim, l)
+                        if not isinstance(wi, int) or not isinstance(wl_, int):
+                            undecided.append('octets written at tag number %d, content length %d: %s' % (i, l, wi if not isinstance(wi, int) else wl_))
+                            return None, None
+                        if header(i, l) != wi + wl_:
+                            bad.append((i, header(i, l) - wl_, wi))
+                        else:
+                            good.append(i)
+                    return bad, good
+                bad_l, good_l = column(I_[0])
+                if bad_l is None:
+                    continue
+                if not good_l:
+                    b2, g2 = row(J_[0])
+                    if g2:
+                        bad_l, good_l = column(g2[0])
+                bad_i, good_i = row(good_l[0] if good_l else J_[0])
+                if bad_i is None:
+                    continue
+                wrong_len += [x for x in bad_l if x not in wrong_len]
+                wrong_id += [x for x in bad_i if x not in wrong_id]
             except thresholds.Panics as e:
                 undecided.append('%s panics or is not a number where it is live: %s' % (name, e))
         # coverage: the rectangles of the paths cover every (tag number, content length)
@@ -510,6 +537,7 @@ def check_encoder(ctx, f, ref_len_octets, pts_wl):
         final = o.st.env.get(BUF, ('unk', 'no buffer'))
         why = None
         items, latom = [], None
+        used, measured = [], (lambda x: x)
         if final[0] != 'rope':
             why = 'what the output buffer holds is not decided (%s)' % absx.fmt(final)[:80]
         elif prim is None:
@@ -553,7 +581,6 @@ def check_encoder(ctx, f, ref_len_octets, pts_wl):
                             return rope.mk_lin({latom: 1}, 0)
                         return None
                     return replace_terms(x, fn)
-                used = []
                 for sg in segs[2:-1]:
                     if sg[0] == 'emit' and sg[1] == WLN and len(sg[2]) == 1:
                         if rope.lin_of(measured(sg[2][0])) == ({latom: 1}, 0):
